@@ -245,11 +245,60 @@ def gen_layer_a(ctx, n_rand):
     return L
 
 
+def gen_crcv(rng, n):
+    """the client's Block2 receive path (real coap_handle_response_get_block): genuine blocks in order / out of order /
+    duplicated / missing / beyond the end, ETag and Content-Format changes, Size2 right / absent / too small, a changed
+    SZX, a wrong More bit, short payloads; both delivery modes"""
+    L = []
+    for _ in range(n):
+        szx = rng.randrange(3) if rng.random() < 0.8 else rng.randrange(7)
+        c = 1 << (szx + 4)
+        ln = rng.choice([rng.randrange(1, 9 * c), rng.randrange(1, 6) * c, rng.randrange(1, 6) * c + 1, rng.randrange(1, 6) * c - 1])
+        nb = (ln + c - 1) // c
+        order = list(range(nb))
+        r = rng.random()
+        if r < 0.25:
+            rng.shuffle(order)
+        elif r < 0.45 and nb > 1:
+            i, j = rng.randrange(nb), rng.randrange(nb)
+            order[i], order[j] = order[j], order[i]
+        for _ in range(rng.choice([0, 0, 1, 2])):
+            order.insert(rng.randrange(len(order) + 1), rng.randrange(nb))
+        if rng.random() < 0.1 and len(order) > 1:
+            del order[rng.randrange(len(order))]
+        if rng.random() < 0.08:
+            order.insert(rng.randrange(len(order) + 1), nb + rng.randrange(2))
+        if rng.random() < 0.15:
+            order += list(range(nb))               # the whole body again (a new transfer once the state is gone)
+        size2 = rng.choice([str(ln), str(ln), "-", "-", str(rng.randrange(ln + 1))])
+        etag = rng.choice([0, 0, 5])
+        fmt = rng.choice([0, 0, 42])
+        noisy = rng.random() < 0.35
+        items = []
+        for k in order:
+            e, f, s = etag, fmt, szx
+            if noisy and rng.random() < 0.12:
+                e = rng.choice([0, 5, 6])
+            if noisy and rng.random() < 0.06:
+                f = rng.choice([0, 42, 50])
+            if noisy and rng.random() < 0.06:
+                s = rng.randrange(7)
+            m = 1 if (k + 1) * (1 << (s + 4)) < ln else 0
+            if noisy and rng.random() < 0.04:
+                m = 1 - m
+            it = "%d.%d.%d.%d.%d" % (k, m, s, e, f)
+            if noisy and rng.random() < 0.06:
+                it += ".%d" % rng.randrange((1 << (s + 4)) + 1)
+            items.append(it)
+        L.append("crcv %d %d %d %s %s" % (rng.choice([1, 1, 0]), ln, rng.randrange(256), size2, ",".join(items)))
+    return L
+
+
 def generate(ctx, escalate=False):
     n = 3000 if ctx.thorough() else 400
     if escalate:
         n *= 3
-    return gen_layer_a(ctx, n) + gen_layer_b(ctx, n * 3)
+    return gen_layer_a(ctx, n) + gen_crcv(ctx.rng, n * 2) + gen_layer_b(ctx, n * 3)
 
 
 # --------------------------------------------------------------------------
@@ -264,6 +313,16 @@ def fnv(b):
     for x in b:
         h = ((h ^ x) * 16777619) & 0xffffffff
     return "%08x" % h
+
+
+def crcv_genuine(w):
+    """a `crcv` line whose responses could come from a libcoap server: every response carries the slice for its NUM/SZX
+    with the right More bit, and the block size never changes during the transfer (coap_handle_request_send_block
+    refuses a changed SZX with 4.00 and echoes the requested one otherwise)"""
+    ln = int(w[2])
+    its = [x.split(".") for x in w[5].split(",")]
+    return all(len(x) == 5 and x[2] == its[0][2] and int(x[1]) == (1 if (int(x[0]) + 1) * (1 << (int(x[2]) + 4)) < ln else 0)
+               for x in its)
 
 
 def spec_layer_a(ctx, c):
@@ -379,6 +438,21 @@ def spec_layer_a(ctx, c):
                     return "the handler was given %s, the sender's body is %d bytes hash %s" % (o, ln, fnv(body))
                 if int(f[1]) != ln and not any(x.split(".")[0] == "0" and x.split(".")[1] == "0" for x in w[5].split(",")):
                     return "the handler was given %s bytes of a %d-byte body" % (f[1], ln)
+    elif op == "crcv":
+        single, ln, seed = int(w[1]), int(w[2]), int(w[3])
+        body = mk_body(ln, seed)
+        its = [x.split(".") for x in w[5].split(",")]
+        genuine = crcv_genuine(w)
+        if genuine:
+            for o in i.split(","):
+                mm = re.match(r"([hH])(\d+):(\d+):(\d+):([0-9a-f]{8})", o)
+                if not mm:
+                    continue
+                kind, off, l, tot, h = mm.group(1), int(mm.group(2)), int(mm.group(3)), int(mm.group(4)), mm.group(5)
+                if single and kind == "H" and (off != 0 or l != ln or h != fnv(body)):
+                    return "the response handler was given %s as the body; the server's body is %d bytes hash %s" % (o, ln, fnv(body))
+                if not single and (off + l > ln and l or h != fnv(body[off:off + l])):
+                    return "the response handler was given %s, which is not a slice of the server's body" % o
     elif op == "srcv":
         szx, ln, seed = int(w[1]), int(w[2]), int(w[3])
         body = mk_body(ln, seed)
@@ -410,6 +484,10 @@ def judge(ctx, c):
         # a block shorter than the announced size leaves never-written (malloc'd) bytes in the buffer: compare shapes only
         ii = re.sub(r":[0-9a-f]{8}(,|$)", r":*\1", ii)
         m = re.sub(r":[0-9a-f]{8}(,|$)", r":*\1", m or "")
+    if c["input"].startswith("crcv") and c["input"].split()[1] == "1" and not crcv_genuine(c["input"].split()):
+        # short payloads / mixed block sizes leave never-written (malloc'd) bytes in the buffer: compare shapes only
+        ii = re.sub(r":[0-9a-f]{8}", ":*", ii)
+        m = re.sub(r":[0-9a-f]{8}", ":*", m or "")
     if ii != m:
         return ("tie", "implementation `%s` but model M says `%s`" % (short(ii), short(m)))
     return None
@@ -598,7 +676,7 @@ def classify(c):
 
 
 def search(ctx, tie_breaks, proof):
-    return gen_layer_a(ctx, 1500)
+    return gen_layer_a(ctx, 1500) + gen_crcv(ctx.rng, 3000)
 
 
 def known(ctx, c):
